@@ -71,7 +71,7 @@ add('s_drain', 'drain', ['C01', 'C03', 'C09', 'C11', 'C20'], U(1, 4))
 add('s_drain', 'drain_adaptors', ['C03', 'C09'], lambda n, k: n + 4, pairs=([(n, k) for n in (1, 2, 3) for k in range(4)], [(4, k) for k in range(4)]))
 add('s_drain', 'drain_forget', ['C10'], U(1, 4))
 add('s_drain', 'drain_forget_plain', ['C10'], U(1, 4))
-add('s_drain', 'drain_debug', ['C09'], U(1, 4), qn=[0, 1, 3], tn=[4])
+add('s_drain', 'drain_debug', ['C09', 'C04'], U(1, 4), qn=[0, 1, 3], tn=[4])
 
 # ---------------------------------------------------------------- documented panics (s_panic)
 for fn in ('range_must_panic', 'range_mut_must_panic', 'drain_must_panic', 'swap_must_panic',
